@@ -18,7 +18,8 @@ def handle (j : Json) : Except String Json := do
                         ("effects", Json.arr (r.2.map J.effectJ).toArray), ("readonly", Json.bool true)])
     else
       let prog ← J.stmts (← jobj j "prog")
-      let st := analyze reg builtins ns prog
+      let fx := J.fixes ((j.getObjVal? "fixes").toOption.getD Json.null)
+      let st := analyzeFx fx reg builtins ns prog
       let ro := (List.range ns.length).all fun i => st.heap.get (i + 3) == ns.getD i {}
       pure (Json.mkObj [("missing", strsJ (sortedSet (st.missing.map (·.name)))),
                         ("effects", Json.arr (st.log.map J.effectJ).toArray), ("readonly", Json.bool ro)])
